@@ -6,12 +6,20 @@ import random
 from pbv import core, lattice, loopsuite, scen, shots
 
 
+CANTS = [-20.0, 200.0, 5.0, -90.0, 300.0, 30.0, 135.0, -135.0, 90.0, 355.0]
+
+
 def scenarios(rng: random.Random, n: int, thorough: bool):
     scs = []
     kinds = ["none", "tail", "head", "cross", "multi", "tail", "strongtail"]
     for i in range(n):
         kind = kinds[i % len(kinds)]
         p = shots.gen_shot(rng, winds=0, slow=(kind == "strongtail"), cant=(i % 4 == 1))
+        if i % 4 == 1:
+            # cants of every quadrant (the sine AND the cosine of the cant take both signs) over a sight that is not on the bore
+            p["cant_deg"] = CANTS[(i // 4) % len(CANTS)]
+            if abs(p["sight_in"]) < 0.5:
+                p["sight_in"] = 2.5
         if kind == "strongtail":
             # a slow projectile in a tail wind: ground advance per iteration well above the air-relative step
             p["mv_fps"] = rng.choice([300.0, 420.0, 640.0])
